@@ -16,8 +16,8 @@ CONSTANT Deviations,       \* names of the deviations of open known findings
 
 Trace == ndJsonDeserialize(IOEnv.TRACE)
 
-VARIABLES l, st, dev, nskip
-vars == <<l, st, dev, nskip>>
+VARIABLES l, st, dev, nskip, pmem
+vars == <<l, st, dev, nskip, pmem>>
 
 Outcome(e, D) == Exec([S |-> st, now |-> e.now, db |-> e.db, D |-> D], e.cmd, e.r)
 
@@ -30,29 +30,65 @@ Matches(e, D) ==
 
 Explaining(e) == {D \in SUBSET (RelevantDevs(e.cmd) \cap Deviations) : Matches(e, D)}
 
-Init == l = 1 /\ st = EmptyStore /\ dev = [n \in Deviations |-> 0] /\ nskip = 0
+Init == l = 1 /\ st = EmptyStore /\ dev = [n \in Deviations |-> 0] /\ nskip = 0 /\ pmem = 0
 
-\* C19: the reported figure is a function of the (physically stored) dataset
-MemOK(e) == CheckMem => e.mem = MemOf(ProjStore(e.st))
+(***************************************************************************)
+(* C19: the reported memory figure is a function of the (physically        *)
+(* stored) dataset.  Judged on deltas: a step must change the figure by    *)
+(* exactly the change of the accounted size of the entries it changed.     *)
+(* Open finding MemInPlace: handlers that mutate a stored collection in    *)
+(* place (or hand the mutated object back to setValues) leave the size     *)
+(* change of that entry unaccounted - the figure then moves by the deltas  *)
+(* of only a subset of the changed entries, and the error stays forever.   *)
+(***************************************************************************)
+InPlaceOps == {"SADD", "SREM", "SPOP", "SMOVE", "ZADD", "ZINCRBY", "ZREM", "ZPOPMIN", "ZPOPMAX", "ZMPOP",
+               "ZREMRANGEBYSCORE", "ZREMRANGEBYRANK", "ZREMRANGEBYLEX"}
+
+Changed(before, after) ==
+    {x \in (DOMAIN before) \cup (DOMAIN after) :
+        ~(x \in DOMAIN before /\ x \in DOMAIN after /\ before[x].v = after[x].v)}
+
+EM(S, x) == IF x \in DOMAIN S THEN EntryMem(S, x) ELSE 0
+
+DeltaOf(before, after, xs) == LET f(x) == EM(after, x) - EM(before, x) IN SumSet(f, xs)
+
+MemStepOK(e, inplace) ==
+    CheckMem =>
+    LET after == ProjStore(e.st)
+        ch    == Changed(st, after)
+        d     == e.mem - pmem
+    IN \/ d = DeltaOf(st, after, ch)
+       \/ /\ inplace /\ "MemInPlace" \in Deviations
+          /\ \E xs \in SUBSET ch : d = DeltaOf(st, after, xs)
+
+MemExact(e) == CheckMem => e.mem = MemOf(ProjStore(e.st))
 
 TraceReset ==
     /\ l <= Len(Trace) /\ Trace[l].ev = "reset"
-    /\ MemOK(Trace[l])
-    /\ st' = ProjStore(Trace[l].st)
+    \* a freshly loaded dataset: the figure is MemOf of it (0 when empty) - unless the preset itself
+    \* used one of the in-place commands of the open finding
+    /\ \/ MemExact(Trace[l])
+       \/ /\ "MemInPlace" \in Deviations
+          /\ \E i \in 1..Len(Trace[l].preset) : Trace[l].preset[i][1].s \in InPlaceOps
+    /\ st' = ProjStore(Trace[l].st) /\ pmem' = Trace[l].mem
     /\ l' = l + 1 /\ UNCHANGED <<dev, nskip>>
+
+MemExactStep(e) == LET after == ProjStore(e.st) IN e.mem - pmem = DeltaOf(st, after, Changed(st, after))
 
 TraceCmd ==
     /\ l <= Len(Trace) /\ Trace[l].ev = "cmd"
-    /\ LET e == Trace[l] IN
-       /\ IF Matches(e, {})
-          THEN dev' = dev
-          ELSE LET Ds == Explaining(e) IN
-               /\ Ds # {}
-               /\ LET D == CHOOSE D \in Ds : \A D2 \in Ds : Cardinality(D) <= Cardinality(D2) IN
-                  /\ dev' = [n \in Deviations |-> IF n \in D THEN dev[n] + 1 ELSE dev[n]]
-                  /\ IF \A n \in D : dev[n] > 0 THEN TRUE ELSE PrintT(<<"DEVIATION", l, D, e.cmd>>)
+    /\ LET e  == Trace[l]
+           Ds == IF Matches(e, {}) THEN {{}} ELSE Explaining(e)
+           mi == CheckMem /\ ~(e.r.t \in {"panic", "hang"}) /\ ~MemExactStep(e)     \* explained only by MemInPlace
+       IN
+       /\ Ds # {}
+       /\ (e.r.t \in {"panic", "hang"} \/ MemStepOK(e, e.cmd[1].s \in InPlaceOps))
+       /\ LET D == CHOOSE D \in Ds : \A D2 \in Ds : Cardinality(D) <= Cardinality(D2) IN
+          /\ dev' = [n \in Deviations |-> dev[n] + (IF n \in D THEN 1 ELSE 0) + (IF mi /\ n = "MemInPlace" THEN 1 ELSE 0)]
+          /\ IF \E n \in D \cup (IF mi THEN {"MemInPlace"} ELSE {}) : dev[n] = 0
+             THEN PrintT(<<"DEVIATION", l, D \cup (IF mi THEN {"MemInPlace"} ELSE {}), e.cmd>>) ELSE TRUE
        /\ nskip' = IF Outcome(e, {}).rel = "skip" THEN nskip + 1 ELSE nskip
-       /\ (e.r.t \in {"panic", "hang"} \/ MemOK(e))
+       /\ pmem' = IF e.r.t \in {"panic", "hang"} THEN pmem ELSE e.mem
        /\ st' = ProjStore(e.st)
     /\ l' = l + 1
 
@@ -65,8 +101,8 @@ TraceSample ==
        /\ DOMAIN new \subseteq DOMAIN st
        /\ \A x \in DOMAIN new : new[x] = st[x]
        /\ \A x \in (DOMAIN st) \ (DOMAIN new) : x[1] = e.db /\ ~LiveEnt(st[x], e.now)
-       /\ MemOK(e)
-       /\ st' = new
+       /\ MemStepOK(e, FALSE)
+       /\ st' = new /\ pmem' = e.mem
     /\ l' = l + 1 /\ UNCHANGED <<dev, nskip>>
 
 \* the embedded caller selects another database: nothing in the dataset changes
@@ -76,20 +112,21 @@ TraceSelect ==
        /\ ~("dead" \in DOMAIN e) /\ ~("err" \in DOMAIN e)
        /\ ProjStore(e.st) = st
        /\ st' = st
-    /\ l' = l + 1 /\ UNCHANGED <<dev, nskip>>
+    /\ l' = l + 1 /\ UNCHANGED <<dev, nskip, pmem>>
 
 \* diagnostics only: never enabled
 TraceStuck ==
     /\ l <= Len(Trace) /\ Trace[l].ev = "cmd"
     /\ LET e == Trace[l] IN
-       /\ ((~Matches(e, {}) /\ Explaining(e) = {}) \/ ~(e.r.t \in {"panic", "hang"} \/ MemOK(e)))
+       /\ ((~Matches(e, {}) /\ Explaining(e) = {}) \/ ~(e.r.t \in {"panic", "hang"} \/ MemStepOK(e, e.cmd[1].s \in InPlaceOps)))
        /\ PrintT(<<"MISMATCH-LINE", l>>)
        /\ PrintT(<<"MISMATCH-CMD", e.cmd>>)
        /\ PrintT(<<"MISMATCH-MODEL-REPLY", Outcome(e, {}).r>>)
        /\ PrintT(<<"MISMATCH-LOGGED-REPLY", e.r>>)
        /\ PrintT(<<"MISMATCH-MODEL-STATE", Norm(Outcome(e, {}).S, e.now)>>)
        /\ PrintT(<<"MISMATCH-LOGGED-STATE", Norm(ProjStore(e.st), e.now)>>)
-       /\ (~CheckMem \/ PrintT(<<"MISMATCH-MEM", "logged", e.mem, "MemOf(logged dataset)", MemOf(ProjStore(e.st))>>))
+       /\ (~CheckMem \/ PrintT(<<"MISMATCH-MEM", "figure before", pmem, "figure after", e.mem, "accounted size of the changed entries moved by",
+                                  DeltaOf(st, ProjStore(e.st), Changed(st, ProjStore(e.st))), "MemOf(dataset after)", MemOf(ProjStore(e.st))>>))
     /\ FALSE
     /\ UNCHANGED vars
 
